@@ -17,6 +17,20 @@ pub fn run_line(line: &str) -> String {
                 m.commit_space(unhex(&op[1..]));
                 "c:ok".to_string()
             }
+            // commit through a buffer obtained from get_next_space (as FrameCompressor does): its capacity is the slice
+            // size whatever the number of bytes committed
+            b'C' => {
+                let d = unhex(&op[1..]);
+                let mut v = m.get_next_space();
+                if d.len() <= v.len() {
+                    v[..d.len()].copy_from_slice(&d);
+                    v.resize(d.len(), 0);
+                } else {
+                    v = d;
+                }
+                m.commit_space(v);
+                "c:ok".to_string()
+            }
             b'm' => {
                 let mut s = Vec::new();
                 m.start_matching(|seq| match seq {
@@ -38,7 +52,7 @@ pub fn run_line(line: &str) -> String {
         match r {
             Ok(s) => out.push(s),
             Err(_) => {
-                out.push(format!("{}:panic", &op[..1]));
+                out.push(format!("{}:panic", op[..1].to_lowercase()));
                 break;
             }
         }
